@@ -266,7 +266,144 @@ def gen_case(rng, allow_int=False, allow_remove=True, nops=None, big=1):
     return case
 
 
+def apply_op_shape(cur, op):
+    """Shapes of the registered services after one operation on the profile; (shapes, removed?)."""
+    o = op["op"]
+    if o == "add":
+        return cur + [shape_of(op["svc"])], False
+    if o == "addchar" and op["i"] < len(cur):
+        cur = [dict(s, chars=list(s["chars"])) for s in cur]
+        cur[op["i"]]["chars"].append(dict(op["char"]))
+    elif o == "delchar" and op["i"] < len(cur) and op["j"] < len(cur[op["i"]]["chars"]):
+        cur = [dict(s, chars=list(s["chars"])) for s in cur]
+        del cur[op["i"]]["chars"][op["j"]]
+    elif o == "remove" and op["i"] < len(cur):
+        return cur[:op["i"]] + cur[op["i"] + 1:], True
+    return cur, False
+
+
+def history_shapes(case):
+    """Expected shapes of the registered services after the build and after every step of the
+    case (operation sequence or hand-assembly history): (shapes per step, removed-before?, labels)."""
+    cur = [shape_of(s) for s in case["services"]]
+    hist, rem, labels, removed = [cur], [False], [], False
+    if "hops" not in case:
+        for op in case["ops"]:
+            cur, r = apply_op_shape(cur, op)
+            removed = removed or r
+            hist.append(cur); rem.append(removed); labels.append(op["op"])
+        return hist, rem, labels
+    pend = []
+    for h in case["hops"]:
+        t = h["h"]
+        if t == "new":
+            pm = uuid_model(h["uuid"])
+            pend = pend + [{"uuid": pm[1], "u16": pm[0] == "U16", "primary": h["primary"], "incs": [], "chars": []}]
+        elif t == "op":
+            cur, r = apply_op_shape(cur, h["op"])
+            removed = removed or r
+        elif h["i"] < len(pend):
+            if t == "register":
+                cur = cur + [pend[h["i"]]]
+                pend = pend[:h["i"]] + pend[h["i"] + 1:]
+            else:
+                pend = [dict(s, chars=[dict(c, late=list(c.get("late", []))) for c in s["chars"]], incs=list(s["incs"])) for s in pend]
+                ps = pend[h["i"]]
+                if t == "attach":
+                    ps["chars"].append(dict(h["char"], late=[]))
+                elif t == "incl":
+                    ps["incs"].append(uuid_model(h["uuid"])[1])
+                elif t == "desc" and h["j"] < len(ps["chars"]):
+                    ps["chars"][h["j"]]["late"].append(h["desc"])
+        hist.append(cur); rem.append(removed)
+        labels.append(t if t != "op" else h["op"]["op"])
+    return hist, rem, labels
+
+
+def gen_hist(rng, allow_remove=True, nhops=None):
+    """A hand-assembly history: service objects created empty, characteristics attached, descriptors
+    added to already attached characteristics, include definitions added, in any order, interleaved
+    with registrations and with operations on the profile."""
+    state = {"svc_uuids": set(), "big_left": 0, "allow_int": False}
+    start = rng.choice([1, 1, 1, 2, 5, 100, 0x1000])
+    services = [rand_sdef(rng, state, "s%02d" % i) for i in range(rng.choice([0, 0, 1, 2]))]
+    hops, npend, pchars, nreg, regchars = [], 0, [], len(services), [len(s["chars"]) for s in services]
+    nhops = rng.choice([4, 6, 8, 10, 12]) if nhops is None else nhops
+    nadd = 0
+    for _ in range(nhops):
+        kinds = ["new", "attach", "attach", "desc", "desc", "desc", "incl", "register", "register", "op", "op"]
+        k = rng.choice(kinds)
+        if npend == 0 and k in ("attach", "desc", "incl", "register"):
+            k = "new"
+        if k == "desc" and not any(pchars):
+            k = "attach"
+        if k == "new":
+            u = rand_uuid(rng, 0x1800, 0.3, taken=state["svc_uuids"])
+            state["svc_uuids"].add(uuid_model(u))
+            hops.append({"h": "new", "primary": rng.random() < 0.8, "uuid": u})
+            npend += 1; pchars.append(0)
+        elif k == "attach":
+            i = rng.randrange(npend)
+            hops.append({"h": "attach", "i": i, "char": rand_cdef(rng, state)})
+            pchars[i] += 1
+        elif k == "desc":
+            i = rng.choice([x for x in range(npend) if pchars[x]])
+            hops.append({"h": "desc", "i": i, "j": rng.randrange(pchars[i]), "desc": rand_ddef(rng)})
+        elif k == "incl":
+            hops.append({"h": "incl", "i": rng.randrange(npend), "uuid": rand_uuid(rng, 0x1880, 0.3)})
+        elif k == "register":
+            i = rng.randrange(npend)
+            hops.append({"h": "register", "i": i})
+            regchars.append(pchars.pop(i)); npend -= 1; nreg += 1
+        else:
+            ok = ["add"] + (["update", "addchar"] if nreg else []) + (["delchar"] if any(regchars) else []) \
+                 + (["remove"] if (nreg and allow_remove) else [])
+            o = rng.choice(ok)
+            if o == "add":
+                sd = rand_sdef(rng, state, "a%02d" % nadd, kinds=("primary",)); nadd += 1
+                hops.append({"h": "op", "op": {"op": "add", "svc": sd}}); nreg += 1; regchars.append(len(sd["chars"]))
+            elif o == "update":
+                hops.append({"h": "op", "op": {"op": "update", "i": rng.randrange(nreg)}})
+            elif o == "addchar":
+                i = rng.randrange(nreg)
+                hops.append({"h": "op", "op": {"op": "addchar", "i": i, "char": rand_cdef(rng, state)}}); regchars[i] += 1
+            elif o == "delchar":
+                i = rng.choice([x for x in range(nreg) if regchars[x]])
+                hops.append({"h": "op", "op": {"op": "delchar", "i": i, "j": rng.randrange(regchars[i])}}); regchars[i] -= 1
+            else:
+                i = rng.randrange(nreg)
+                hops.append({"h": "op", "op": {"op": "remove", "i": i}}); nreg -= 1; del regchars[i]
+    case = {"start": start, "services": services, "hops": hops}
+    finish_case(case, rng)
+    return case
+
+
+def c_hop(h):
+    t = h["h"]
+    if t == "new":
+        return "(HNew %s %s)" % (cbool(h["primary"]), c_uuid(h["uuid"]))
+    if t == "attach":
+        return "(HAttach %s %s)" % (cnat(h["i"]), c_cdef(h["char"]))
+    if t == "desc":
+        return "(HDesc %s %s %s)" % (cnat(h["i"]), cnat(h["j"]), c_ddef(h["desc"]))
+    if t == "incl":
+        return "(HIncl %s %s)" % (cnat(h["i"]), c_uuid(h["uuid"]))
+    if t == "register":
+        return "(HRegister %s)" % cnat(h["i"])
+    return "(HOp %s)" % c_op(h["op"])
+
+
+def c_hcase(case, res):
+    return "(%d, %s, %s, %s, %s, %s)" % (
+        case["start"], clist([c_sdef(s) for s in case["services"]]), clist([c_hop(h) for h in case["hops"]]),
+        c_light(res["steps"][0]), clist([c_light(l) for l in res["steps"][1:]]),
+        clist(["(%d, %s)" % (e["key"], c_attr(e)) for e in res["final"]]))
+
+
 def final_shapes(case):
+    if "hops" in case:
+        hist, rem, _ = history_shapes(case)
+        return hist[-1], rem[-1]
     shapes = [shape_of(s) for s in case["services"]]
     removed = False
     for op in case["ops"]:
@@ -295,8 +432,9 @@ def finish_case(case, rng):
         ranges.append([a, b])
     types = [{"t": "i16", "v": v} for v in (0x2800, 0x2801, 0x2802, 0x2803, 0x2901, 0x2902, 0x2908)]
     cu = [cd["uuid"] for s in shapes for cd in s["chars"]]
-    all_defs = [s for s in case["services"]] + [op["svc"] for op in case["ops"] if op["op"] == "add"]
-    su = [s["uuid"] for s in all_defs]
+    all_ops = case["ops"] if "hops" not in case else [h["op"] for h in case["hops"] if h["h"] == "op"]
+    all_defs = [s for s in case["services"]] + [op["svc"] for op in all_ops if op["op"] == "add"]
+    su = [s["uuid"] for s in all_defs] + [h["uuid"] for h in case.get("hops", []) if h["h"] == "new"]
     by_type = [[t, 1, 0xFFFF] for t in types]
     for u in cu[:3]:
         by_type.append([u, 1, 0xFFFF])
@@ -581,11 +719,21 @@ def check_final(case, res, shapes):
                     decl.append(("2901", dd["text"].encode("utf-8").hex()))
                 else:
                     decl.append((uuid_text(dd["uuid"]).lower(), dd["value"]))
+            nlate_cccd = 0
+            for dd in cd.get("late", []):          # added with add_descriptor after the construction
+                if dd["k"] == "cccd":
+                    nlate_cccd += 1
+                elif dd["k"] == "report":
+                    decl.append(("2908", "0101"))
+                elif dd["k"] == "user":
+                    decl.append(("2901", dd["text"].encode("utf-8").hex()))
+                else:
+                    decl.append((uuid_text(dd["uuid"]).lower(), dd["value"]))
             got_other = [(d["uuid"]["s"].lower(), d["value"]) for d in got if d["dkind"] != "cccd"]
             if got_other != decl:
                 bad.append("characteristic at %d: descriptors %r, declared %r" % (ch, got_other, decl))
             ncccd = sum(1 for d in got if d["dkind"] == "cccd")
-            want_cccd = 1 if ((expected_props(cd) & 0x30) or ncccd_decl) else 0
+            want_cccd = (1 if ((expected_props(cd) & 0x30) or ncccd_decl) else 0) + nlate_cccd
             if ncccd != want_cccd:
                 bad.append("characteristic at %d: %d CCC descriptors, %d expected" % (ch, ncccd, want_cccd))
         if se["end"] != want - 1:
@@ -693,31 +841,15 @@ def check_export(res):
 def oracle(ctx, case, res, tag):
     """Returns number of (non-known) violations recorded."""
     n = 0
-    small = {"start": case["start"], "services": case["services"], "ops": case["ops"], "again": case.get("again", []),
+    small = {"start": case["start"], "services": case["services"], "ops": case.get("ops", []), "again": case.get("again", []),
              "explicit_start": case.get("explicit_start", False), "queries": case["queries"], "tag": tag}
+    if "hops" in case:
+        small["hops"] = case["hops"]
     if "exc" in res and res.get("stage") != "reimport":
         n += ctx.violation("%s raised %s (%s)" % (res["stage"], res["exc"], res.get("msg", "")), small,
                            expected="no exception", observed={k: res[k] for k in ("exc", "stage", "msg") if k in res})
         return n
-    shapes_hist = [[shape_of(s) for s in case["services"]]]
-    removed_hist = [False]
-    cur = [shape_of(s) for s in case["services"]]
-    removed = False
-    for op in case["ops"]:
-        o = op["op"]
-        if o == "add":
-            cur = cur + [shape_of(op["svc"])]
-        elif o == "addchar" and op["i"] < len(cur):
-            cur = [dict(s, chars=list(s["chars"])) for s in cur]
-            cur[op["i"]]["chars"].append(dict(op["char"]))
-        elif o == "delchar" and op["i"] < len(cur) and op["j"] < len(cur[op["i"]]["chars"]):
-            cur = [dict(s, chars=list(s["chars"])) for s in cur]
-            del cur[op["i"]]["chars"][op["j"]]
-        elif o == "remove" and op["i"] < len(cur):
-            cur = cur[:op["i"]] + cur[op["i"] + 1:]
-            removed = True
-        shapes_hist.append(cur)
-        removed_hist.append(removed)
+    shapes_hist, removed_hist, labels = history_shapes(case)
     # further instances of the same class: own objects, correct layout at their start handle,
     # and the FIRST instance untouched (database, every attribute field, JSON export)
     for a in res.get("again", []):
@@ -738,7 +870,7 @@ def oracle(ctx, case, res, tag):
             return n
     for k, light in enumerate(res["steps"]):
         bad, gaps = check_layout(case["start"], light, shapes_hist[k], not removed_hist[k])
-        where = "after the build" if k == 0 else "after operation %d (%s)" % (k - 1, case["ops"][k - 1]["op"])
+        where = "after the build" if k == 0 else "after step %d (%s)" % (k - 1, labels[k - 1])
         if bad:
             n += ctx.violation("layout invariant broken %s: %s" % (where, bad[0]), small, expected="distinct, consistent handles; DB = union of service ranges",
                                observed={"problems": bad[:6], "step": light})
@@ -848,6 +980,10 @@ def run(ctx):
         c["ops"].append({"op": "add", "svc": rand_sdef(rng, st, "z00", kinds=("primary",))})
         finish_case(c, rng)
         cases.append(c); tags.append("update-then-add")
+    # services assembled by hand, in any order of the primitive operations, interleaved with the operations
+    for i in range(500 if ctx.thorough else 45):
+        cases.append(gen_hist(rng, allow_remove=(i % 3 != 0)))
+        tags.append("hand-assembly")
     sec_req = sec_cases(rng, 3000 if ctx.thorough else 300)
     req_ints = list(range(256)) + [256, 0x177, 0xFFFF, 1 << 40]
     t_impl = C.run_impl("C16.py", {"cases": cases, "sec": sec_req, "ints": req_ints})
@@ -879,12 +1015,22 @@ def run(ctx):
     # ---- correspondence ------------------------------------------------------------
     pre = "From Whad Require Import Lib.Bytes C16.Model.\nOpen Scope N_scope."
     terms, idx = [], []
+    hterms, hidx = [], []
     for i, (case, res) in enumerate(zip(cases, results)):
         if "exc" in res:
+            continue
+        if "hops" in case:
+            hterms.append(c_hcase(case, res)); hidx.append(i)
             continue
         terms.append(c_case(case, res)); idx.append(i)
     bad, logs = C.run_cases(PID, "cases", pre, "ccase", terms, "check_case", shard=40, max_chars=300000)
     ctx.notes += logs[:4]
+    bad_h, logs_h = C.run_cases(PID, "hist", pre, "N * list sdef * list hop * lightobs * list lightobs * list (N * attr)",
+                                hterms, "check_hcase", shard=12, max_chars=300000)
+    if bad_h:                      # reported through the same verdict path as the other cases
+        bad = bad + [len(idx) + b for b in bad_h]
+    idx = idx + hidx
+    logs = logs + logs_h
     sec_terms = []
     for c, r in zip(sec_req, t_impl["sec"]):
         if "exc" in r:
@@ -909,7 +1055,7 @@ def run(ctx):
             first = None
             if bad:
                 i = idx[bad[0]]
-                first = {"case": strip_case(cases[i]), "impl": {k: results[i].get(k) for k in ("steps", "export_text", "reimport")}, "tag": tags[i]}
+                first = {"case": strip_case(cases[i]), "impl": {k: results[i].get(k) for k in ("steps", "export_text")}, "tag": tags[i]}
             elif bad_sec:
                 first = {"sec": sec_req[bad_sec[0]], "impl": t_impl["sec"][bad_sec[0]]}
             elif bad_int:
@@ -920,7 +1066,7 @@ def run(ctx):
 
 
 def strip_case(c):
-    return {k: c[k] for k in ("start", "explicit_start", "services", "ops", "queries", "again") if k in c}
+    return {k: c[k] for k in ("start", "explicit_start", "services", "ops", "hops", "queries", "again") if k in c}
 
 
 def fill_coverage(ctx, cases, results, tags):
@@ -933,8 +1079,11 @@ def fill_coverage(ctx, cases, results, tags):
                        "of >= 4 attributes; distinct by content hash")
     opk = {}
     for c in cases:
-        for o in c["ops"]:
+        for o in c.get("ops", []) + [h["op"] for h in c.get("hops", []) if h["h"] == "op"]:
             opk[o["op"]] = opk.get(o["op"], 0) + 1
+        for h in c.get("hops", []):
+            if h["h"] != "op":
+                opk["hand:" + h["h"]] = opk.get("hand:" + h["h"], 0) + 1
     kinds = {}
     dk = {}
     ukinds = {}
@@ -959,7 +1108,7 @@ def fill_coverage(ctx, cases, results, tags):
     ctx.cov["distribution"] = {
         "cases": len(cases), "cases_with_exception": len(cases) - len(okc),
         "tags": {t: tags.count(t) for t in sorted(set(tags))},
-        "ops": opk, "op_sequence_lengths": {str(k): sum(1 for c in cases if len(c["ops"]) == k) for k in range(0, 8)},
+        "ops": opk, "op_sequence_lengths": {str(k): sum(1 for c in cases if len(c.get("ops", c.get("hops", []))) == k) for k in range(0, 8)},
         "final_attribute_classes": kinds, "descriptor_kinds": dk, "uuid_text_lengths": ukinds,
         "characteristics_with_security": nsec, "max_value_len": maxval, "include_definitions": ninc,
         "db_size_min_median_max": [sizes[0], sizes[len(sizes) // 2], sizes[-1]] if sizes else [],
@@ -968,13 +1117,13 @@ def fill_coverage(ctx, cases, results, tags):
         "model_branches": {"add_service(handle==0 -> setter)": opk.get("add", 0) + sum(len(c["services"]) for c in cases),
                            "update_at": opk.get("update", 0) + opk.get("addchar", 0) + opk.get("delchar", 0),
                            "remove_at": opk.get("remove", 0),
-                           "uuid built from a 128-bit int": sum(1 for c, _r in okc if '"i128"' in json.dumps(c["services"]) + json.dumps(c["ops"]))},
+                           "uuid built from a 128-bit int": sum(1 for c, _r in okc if '"i128"' in json.dumps(c["services"]) + json.dumps(c.get("ops", [])))},
         "uncovered_branches": ["remove_at: KeyError (unreachable under the invariant)", "import: OutOfModel (zero handles never exported)",
                                "update_at/remove_at with an index out of range (not generated)"],
     }
     samples = []
     for c, r in okc[:400]:
-        if len(c["ops"]) >= 2 and len(samples) < 3:
+        if len(c.get("ops", [])) >= 2 and len(samples) < 3:
             samples.append({"start": c["start"], "services": [[s["kind"], uuid_text(s["uuid"]), len(s["chars"]), len(s["includes"])] for s in c["services"]],
                             "ops": [o["op"] for o in c["ops"]], "final_db": [[e["key"], e["cls"]] for e in r["final"]][:30],
                             "reimport_same": r["reimport"].get("same")})
@@ -995,7 +1144,9 @@ def replay(payload):
         return 0
     r = C.run_impl("C16.py", {"cases": [case]})["cases"][0]
     print("definition: start=%d services=%s" % (case["start"], [[s["kind"], uuid_text(s["uuid"]), len(s["chars"])] for s in case["services"]]))
-    print("operations:", [dict((k, v) for k, v in o.items() if k in ("op", "i", "j")) for o in case["ops"]])
+    print("operations:", [dict((k, v) for k, v in o.items() if k in ("op", "i", "j")) for o in case.get("ops", [])])
+    if "hops" in case:
+        print("history:", [dict((k, v) for k, v in h.items() if k in ("h", "i", "j", "primary")) for h in case["hops"]])
     for k, l in enumerate(r.get("steps", [])):
         print("step %d: next=%s services=%s db=%s" % (k, l.get("next"), l.get("svcs"), l.get("db")))
     for k in ("exc", "stage", "msg"):
